@@ -92,6 +92,21 @@ def gen_case(rng, i):
     return c
 
 
+def exhaustive_pairs(stride):
+    """bounded-exhaustive sub-family: 2 variables, coefficients -1..1, constants -2..2, <= 2 rows a side
+    (672 400 ordered pairs); every stride-th pair is taken"""
+    import itertools
+
+    rows = [({v: a for v, a in (("x", a), ("y", b)) if a}, c) for a in (-1, 0, 1) for b in (-1, 0, 1) if (a, b) != (0, 0) for c in (-2, -1, 0, 1, 2)]
+    lists = [[r] for r in rows] + [[r, s] for r, s in itertools.combinations(rows, 2)]
+    k = 0
+    for L in lists:
+        for R_ in lists:
+            k += 1
+            if k % stride == 0:
+                yield {"fam": "exhaustive2", "kind": "list", "L": L, "R": R_}
+
+
 def gen_cases(tier):
     sd = seed()
     n = 1500 if tier == "quick" else 40000
@@ -100,6 +115,10 @@ def gen_cases(tier):
         c = gen_case(family.rng_for(sd, PROP, i), i)
         c["id"] = i + 1
         out.append(c)
+    if tier == "thorough":
+        for c in exhaustive_pairs(17 + sd % 5):
+            c["id"] = len(out) + 1
+            out.append(c)
     return out
 
 
